@@ -92,7 +92,9 @@ class Env:
         d_exp: Dict[Symbol, Boolean] = {}
         n_exps = []
         for s, e in deff[3]:
-            new_e = e.subs(d_exp)
+            # simultaneous replacement: subs() applies the pairs one after the other, so a symbol
+            # introduced by one pair (a formal the callee re-assigns) was replaced again by the next
+            new_e = e.xreplace(d_exp)
             d_exp[s] = new_e
             n_exps.append((s, new_e))
 
